@@ -7,7 +7,7 @@ into AgVerif.Gen.CfgOps.  Spec: AgVerif.Spec.Cfg (control-transfer opcodes of th
 "the disassembler reports instruction i at offset o").
 Every theorem holds for every instruction stream `m` and every try table `ex`, of any length.
 -/
-import AgVerif.Proof.CfgSpec
+import AgVerif.Proof.CfgSucc
 namespace AgVerif.C10
 open AgVerif.Cfg AgVerif.Spec.Cfg AgVerif.Gen.CfgOps
 
@@ -31,7 +31,53 @@ theorem block_at_disassembler_offsets {m : List Ins} {ex : List Exc} {b : Block}
     ∃ pre post, m = pre ++ b.insns ++ post ∧ b.start = lenSum pre :=
   block_in_stream hb
 
-/-- What `leaders` contains: every `determineNext` value of every BasicOPCODES instruction, every
+/-- Stated against the SPECIFICATION's successor rule (not the model's `leaders`): for every
+    control-transfer instruction `i` at offset `idx`, every offset `t` that `Spec.Cfg.succ` lists —
+    `idx + 2·refOff` of a goto / if, the fall-through of an if / switch, and `idx + 2·c` for every case
+    target `c` of the switch payload `d` the disassembly reports at the encoded offset (`PayloadAt`,
+    no lookup default) — begins a block whenever `t` is the offset of an instruction.
+    `Aligned` (payloads 4-byte aligned) matters for switches only. -/
+theorem spec_target_starts_block {m : List Ins} {ex : List Exc} (hm : MinLen m) (hal : Aligned m)
+    {idx : Nat} {i : Ins} (hi : InsnAtM m idx i) (hop : i.op ∈ controlOps) (pay : List Int)
+    (hpay : flowOf i.op = Flow.switch → ∃ d, PayloadAt m ((idx : Int) + 2 * i.refOff) d ∧ pay = d.targets)
+    {t : Nat} (ht : (t : Int) ∈ succ i.op idx i.len i.refOff pay) (hto : InsnOffsetM m t) :
+    ∃ b ∈ blocks m ex, b.start = t := by
+  have hmem : (idx, i) ∈ withOff 0 m := mem_withOff_insnAt.mpr hi
+  have hop' : i.op ∈ basicOps := by rw [basic_eq_control]; exact hop
+  have hraw : (t : Int) ∈ succ i.op idx i.len i.refOff (rawTargets m ((idx : Int) + 2 * i.refOff)) := by
+    cases hf : flowOf i.op with
+    | switch =>
+      obtain ⟨d, hd, hp⟩ := hpay hf
+      rw [rawTargets_of_payloadAt hm hd, ← hp]; exact ht
+    | exit => simp [succ, hf] at ht
+    | goto => simpa [succ, hf] using ht
+    | cond => simpa [succ, hf] using ht
+    | fall => simpa [succ, hf] using ht
+  have hn := spec_succ_mem_next hal hmem hop' hraw
+  exact leader_block (next_mem_leaders hmem (by simpa [isBranch] using hop') hn) hto
+
+/-- Every try start and every handler address of the try table that is the offset of an
+    instruction begins a block (the try table is input data, not a model definition). -/
+theorem try_and_handler_start_block {m : List Ins} {ex : List Exc} {e : Exc} (he : e ∈ ex) {o : Nat}
+    (h : (o : Int) = e.start ∨ ∃ hd ∈ e.handlers, o = hd.2) (ho : InsnOffsetM m o) :
+    ∃ b ∈ blocks m ex, b.start = o := by
+  rcases h with h | ⟨hd, hh, rfl⟩
+  · exact leader_block (by rw [h]; exact start_mem_leaders he) ho
+  · exact leader_block (handler_mem_leaders he hh) ho
+
+/-- A block ends right after every control-transfer instruction: it is the last instruction of its
+    block, and the instruction after it (if any) begins the next block. -/
+theorem block_ends_after_branch {m : List Ins} {ex : List Exc} {idx : Nat} {i : Ins}
+    (hi : InsnAtM m idx i) (hop : i.op ∈ controlOps) :
+    ∃ b ∈ blocks m ex, b.insns.getLast? = some i ∧ b.stop = idx + i.len ∧
+      (idx + i.len < lenSum m → ∃ c ∈ blocks m ex, c.start = idx + i.len) := by
+  have hbr : isBranch i = true := by simp [isBranch, basic_eq_control, hop]
+  obtain ⟨b, hb, hg, _, hs⟩ := branch_ends_block (ex := ex) (mem_withOff_insnAt.mpr hi) hbr
+  refine ⟨b, hb, hg, hs, fun hlt => ?_⟩
+  obtain ⟨c, hc, hcs⟩ := chain_next _ _ _ (blocks_chain m ex) b hb (by omega)
+  exact ⟨c, hc, by omega⟩
+
+/-- What the model's list `l` contains (definitional; the content is in `spec_target_starts_block`): every `determineNext` value of every BasicOPCODES instruction, every
     try start, every handler address. -/
 theorem leaders_complete (m : List Ins) (ex : List Exc) :
     (∀ idx i t, (idx, i) ∈ withOff 0 m → isBranch i = true → t ∈ next m idx i → t ∈ leaders m ex) ∧
@@ -59,8 +105,8 @@ theorem branch_only_last {m : List Ins} {ex : List Exc} {b : Block} (hb : b ∈ 
   have := splitAux_branch_last (isLeader (leaders m ex)) isBranch m 0 ⟨0, []⟩ (by simp) b hb x hx
   simpa [isBranch] using this
 
-/-- …and a block ends right after every BasicOPCODES instruction: the instruction after one starts
-    a block (it is the last of its block by `branch_only_last`, and blocks are contiguous). -/
+/-- `BasicOPCODES` as computed at import time is exactly the specification's list of
+    control-transfer opcodes. -/
 theorem basic_ops_spec : basicOps = controlOps := by decide
 
 /-- The specification's list is exactly the set of opcodes that do not simply fall through. -/
@@ -97,5 +143,19 @@ example : WFTargets exM [] := by
   have : o = 4 := by omega
   subst this
   exact ⟨⟨2, 0x00, 0, 0, [], false⟩, [⟨4, 0x38, 2, 0, [], false⟩], [⟨2, 0x0e, 0, 0, [], false⟩], rfl, rfl⟩
+
+/-! Non-vacuity with a switch, its payload and a try table:
+    `packed-switch v0,+4 ; return-void ; nop ; packed-switch-payload{+3, +3}` (offsets 0 6 8 / payload 8),
+    try range over bytes 0..5 with a catch-all handler at 6. -/
+def exS : List Ins :=
+  [⟨6, 0x2b, 4, 0, [], false⟩, ⟨2, 0x0e, 0, 0, [], false⟩, ⟨16, 0x100, 0, 1, [3, 3], false⟩]
+def exT : List Exc := [⟨0, 5, [(none, 6)]⟩]
+
+example : (blocks exS exT).map (fun b => (b.start, b.stop)) = [(0, 6), (6, 8), (8, 24)] := by decide
+example : Aligned exS := by unfold Aligned; decide
+example : PayloadAt exS (((0 : Nat) : Int) + 2 * 4) ⟨16, 0x100, 0, 1, [3, 3], false⟩ :=
+  ⟨8, rfl, ⟨exS.take 2, [], rfl, rfl⟩, Or.inl rfl⟩
+example : ((6 : Nat) : Int) ∈ succ 0x2b 0 6 4 [3, 3] := by decide
+example : InsnOffsetM exS 6 := ⟨_, exS.take 1, exS.drop 2, rfl, rfl⟩
 
 end AgVerif.C10
